@@ -332,6 +332,8 @@ def deck():
         cell("rename/%s/own" % on, *(pre + [["rename", obj, enc("c" if on == "sec" else "p")]]))
         cell("rename/%s/none" % on, *(pre + [["rename", obj, enc(None)]]))
         cell("rename/%s/empty" % on, *(pre + [["rename", obj, enc("")]]))
+        for padded in (clash + " ", " " + clash, clash + "\t", " ", ("c" if on == "sec" else "p") + " ", clash.upper()):
+            cell("rename/%s/blank-padded-or-case-variant" % on, *(pre + [["rename", obj, enc(padded)]]))
     cell("rename/sec/detached-any", ["rename", X, enc("a")])
     cell("rename/sec/doc-level-existing", ["rename", A, enc("b")])
     for obj, on in ((A, "sec"), (P, "prop"), (D, "doc")):
@@ -601,7 +603,8 @@ def rand_struct_op(rng, world, failing=0.3):
         o = rng.choice(anyobj) if anyobj else None
         if o is None:
             return ["doc"]
-        return ["rename", o, enc(rng.choice([nm_s() if world.kind(o) == "sec" else nm_p(), None, "", "zz"]))]
+        nm = nm_s() if world.kind(o) == "sec" else nm_p()
+        return ["rename", o, enc(rng.choice([nm, nm, None, "", "zz", nm + " ", " " + nm]))]
     if k == "clone":
         return ["clone", rng.choice(anyobj + docs), rng.random() < 0.8, rng.random() < 0.3]
     if k == "merge":
